@@ -44,6 +44,17 @@ class Mitm(scen.Relay):
         self.qinfo[(dg.src, m.id)] = {"id": m.id, "labels": labels, "qtype": qt, "kind": kind, "k": k, "anyk": anyk,
                                       "ids": list(ids)}
 
+    def _raw_variant(self, real, i):
+        if i < 6:
+            return real[:[3, 2, 1, 0, 4, 5][i]]
+        if i == 6:
+            return real[:3] + bytes([(real[3] & 0xF0) | ((real[3] + 1) & 15)]) + real[4:]      # another session's userid
+        if i == 7:
+            return real[:3]                                                                  # the bare ident once more
+        if i == 8:
+            return real[:4] + real[4:][: max(1, (len(real) - 4) // 2)]                        # data frame cut in half
+        return hostile.raw_frame(self.hrng)
+
     def _plan_for(self, q):
         for p in self.mplan:
             if (p["kind"] == q["kind"] and p["k"] == q["k"]) or (p["kind"] == "any" and p["k"] == q["anyk"]):
@@ -55,6 +66,25 @@ class Mitm(scen.Relay):
         from_server = dg.src[1] == 53 and dg.src[0] == W.SERVER_IP
         if to_server:
             self._note_query(dg)
+            return scen.Relay.route(self, world, dg)
+        if from_server and dg.data[:3] == proto.RAW_HDR and len(dg.data) >= 4:
+            # raw UDP mode: the k-th raw frame the server sends to the client is followed by cut-down and otherwise
+            # hostile variants of it (every header length 0..5, the bare 3-byte ident, another session's userid, ...)
+            k = self.kcount.get("rawdown", 0)
+            self.kcount["rawdown"] = k + 1
+            for p in self.mplan:
+                if p["kind"] == "rawdown" and p["k"] == k and not p.get("done"):
+                    p["done"] = True
+                    out = [(self.latency, dg.data, dg.src, dg.dst)]
+                    uid = dg.data[3] & 15
+                    for i in range(p.get("n", 12)):
+                        v = self._raw_variant(dg.data, i)
+                        matched = len(v) >= 4 and v[:3] == proto.RAW_HDR and (v[3] & 15) == uid
+                        out.append((self.latency + 30 * len(out), v, dg.src, dg.dst,
+                                    {"kind": "rawcut" if i < 9 else "raw", "matched": matched, "hostile": True,
+                                     "step": "rawdown/%d" % k, "len": len(v)}))
+                        self.injected += 1
+                    return out
             return scen.Relay.route(self, world, dg)
         if not from_server or dg.data[:3] == proto.RAW_HDR or len(dg.data) < 2:
             return scen.Relay.route(self, world, dg)
